@@ -488,7 +488,9 @@ func (e *Executor) LoadDependencyOutputs(
 		)
 		loadErr := e.registry.LoadOutputs(ctx, localDep, targetResult, progress)
 
-		if loadErr != nil || localDep.SkipsCache() {
+		// A no-cache dependency cannot be loaded from the cache, but if it already ran in this
+		// build its outputs are in place (OutputsLoaded) and it must not be executed a second time
+		if loadErr != nil || (localDep.SkipsCache() && !localDep.OutputsLoaded) {
 			logger.Debugf(
 				"%s: failed to load output for dependency %s (re-rerunning): err=%v no-cache=%t",
 				target.Label,
